@@ -126,10 +126,14 @@ def handleC16 (op : String) (args : List Sexp) : Option Ans :=
   | "oracle-alloc", [.atom "code", b] => do
     let b ← toBytes? b
     let r := (Code.codeOp b).run
+    let bound := 64 * b.length + 16777216
+    let verdict : Ans :=
+      if r.2.alloc > bound then .ok (list [tag "fail", tag "alloc"])   -- excluded by `alloc_bound_code`
+      else if r.2.big > bound then .ok (tag "out-of-domain")            -- site 6
+      else .ok (tag "pass")
     pure (match r.1 with
-      | .panic s => if Sites.openIds.contains s then (if max r.2.alloc r.2.big ≤ 64 * b.length + 16777216 then .ok (tag "pass") else .ok (list [tag "fail", tag "alloc"]))
-                    else .ok (list [tag "fail", tag (Sites.report s)])
-      | _ => if max r.2.alloc r.2.big ≤ 64 * b.length + 16777216 then .ok (tag "pass") else .ok (list [tag "fail", tag "alloc"]))
+      | .panic s => if Sites.openIds.contains s then verdict else .ok (list [tag "fail", tag (Sites.report s)])
+      | _ => verdict)
   | _, _ => do
     let r ← runPlain op args
     pure (outAns id r)
